@@ -196,3 +196,54 @@ pub fn set_rows(set: &Set2) -> (Vec<(Key, HLCTimestamp)>, Vec<(Key, HLCTimestamp
     let s = set.verif_snapshot();
     (s.entries, s.dead)
 }
+
+/// A cluster of nodes on one runtime. `layout` lists (node id, data centre).
+pub struct Cluster<S: Storage> {
+    pub nodes: Vec<Node<S>>,
+    pub layout: Vec<(NodeId, String)>,
+}
+
+impl<S: Storage> Cluster<S> {
+    pub async fn start(layout: &[(NodeId, String)], mut make_store: impl FnMut(NodeId) -> Arc<S>) -> Self {
+        let mut nodes = Vec::new();
+        for (id, dc) in layout {
+            nodes.push(Node::start(*id, dc, make_store(*id)).await);
+        }
+        for n in &nodes {
+            n.set_membership(layout).await;
+        }
+        settle().await;
+        Self { nodes, layout: layout.to_vec() }
+    }
+
+    pub fn index_of(&self, id: NodeId) -> usize {
+        self.nodes.iter().position(|n| n.id == id).expect("node id")
+    }
+
+    /// Node `i` repairs from node `j` (one real poller cycle against that single peer).
+    pub async fn repair(&mut self, i: usize, j: usize) {
+        let peer = self.nodes[j].id;
+        self.nodes[i].repair_from(&[peer]).await;
+    }
+
+    /// Every node completes an anti-entropy exchange with every other node, in the given
+    /// order of (repairing node, source node) pairs.
+    pub async fn closing_round(&mut self, order: &[(usize, usize)]) {
+        for (i, j) in order {
+            self.repair(*i, *j).await;
+        }
+    }
+
+    pub fn all_pairs(&self) -> Vec<(usize, usize)> {
+        let n = self.nodes.len();
+        let mut v = Vec::new();
+        for i in 0..n {
+            for j in 0..n {
+                if i != j {
+                    v.push((i, j));
+                }
+            }
+        }
+        v
+    }
+}
